@@ -166,13 +166,13 @@ Qed.
 Definition cell_folder (path : list string) (id parent : string) (ll : Z) : folder :=
   {| f_path := path; f_metadata := true; f_completed := true; f_marker := None;
      f_parent_file := Some parent; f_written_id := id; f_class := "ScriptedSearch"; f_keys := [];
-     f_name := "cell"; f_tag := Some "t1"; f_reload_id := id; f_model := "m"; f_info := None;
+     f_name := "cell"; f_tag := Some "t1"; f_reload_id := id; f_model := "m"; f_info := None; f_info_held := None;
      f_samples := Some [{| s_vec := "v"; s_ll := ll; s_inst := "i" |}]; f_load_error := None;
      f_jsons := ["search"; "model"]; f_analyses := [] |}.
 Definition grid_folder (path : list string) (marker : string) : folder :=
   {| f_path := path; f_metadata := false; f_completed := true; f_marker := Some marker;
      f_parent_file := None; f_written_id := ""; f_class := ""; f_keys := [];
-     f_name := ""; f_tag := None; f_reload_id := ""; f_model := ""; f_info := None;
+     f_name := ""; f_tag := None; f_reload_id := ""; f_model := ""; f_info := None; f_info_held := None;
      f_samples := None; f_load_error := None; f_jsons := ["result"]; f_analyses := [] |}.
 
 (* one dataset (unique tag t1), two grid searches over it, one cell each *)
@@ -203,3 +203,25 @@ Lemma gs_id_true (g : folder) : gs_id true g = folder_name g.
 Proof. reflexivity. Qed.
 Lemma gs_id_false (g : folder) : gs_id false g = match f_marker g with Some t => t | None => "" end.
 Proof. reflexivity. Qed.
+
+(* ---------- info values that are not strings ---------- *)
+
+(* info.json holds {"n": 3}; the info table holds {"n": "3"} *)
+Definition typed_info_folder : folder :=
+  {| f_path := ["pp"; "s1"; "abc"]; f_metadata := true; f_completed := true; f_marker := None;
+     f_parent_file := None; f_written_id := "abc"; f_class := "ScriptedSearch"; f_keys := [];
+     f_name := "s1"; f_tag := None; f_reload_id := "abc"; f_model := "m";
+     f_info := Some "digest-of-n-int-3"; f_info_held := Some "digest-of-n-str-3";
+     f_samples := None; f_load_error := None; f_jsons := ["info"; "search"; "model"]; f_analyses := [] |}.
+
+Lemma info_refuted :
+  exists dir f, wf [] true false dir /\ In f (outputs false dir) /\
+    exists db, scrape [] true false dir [] = Loaded db /\
+      forall r, In r db -> r_id r = f_reload_id f -> r_info r <> f_info f.
+Proof.
+  exists [typed_info_folder], typed_info_folder. split; [|split; [left; reflexivity|]].
+  - split.
+    + intros f [<-|[]]. split; reflexivity.
+    + vm_compute. repeat constructor; simpl; intuition discriminate.
+  - eexists. split; [vm_compute; reflexivity|]. intros r [<-|[]] _. vm_compute. discriminate.
+Qed.
